@@ -100,8 +100,11 @@ OpQRestore(o) ==
     /\ stack' = SubSeq(stack, 1, Len(stack) - 1)
     /\ UNCHANGED <<tm, tlm, inText, posKnown, out, nshow>>
 
+\* cm pre-multiplies the CTM wherever it stands - also between BT and ET, where ISO 32000-1 Figure 9 does not list it
+\* among the operators of a text object: the statement quantifies over all programs and gives cm one meaning, and the
+\* text rendering matrix is Tm x CTM with the CTM current at the showing operator (9.4.4)
 OpCm(o) ==
-    /\ o.op = "cm" /\ ~inText
+    /\ o.op = "cm"
     /\ ctm' = Cat(o.a, ctm)
     /\ UNCHANGED <<tm, tlm, lead, fs, tc, tw, tz, stack, inText, posKnown, out, nshow>>
 
@@ -232,8 +235,8 @@ QRestores ==
 \* BT resets both text matrices.
 BTResets == [][ (~inText /\ inText') => (tm' = Id /\ tlm' = Id) ]_vars
 
-\* Only cm and Q change the CTM; the CTM is never changed inside a text object.
-CtmStable == [][ inText => ctm' = ctm ]_vars
+\* Only cm and Q change the CTM; inside a text object only cm does.
+CtmStable == [][ inText => (ctm' = ctm \/ prog'[Len(prog')].op = "cm") ]_vars
 
 \* The translation part of the text line matrix only changes by the linear part
 \* of tlm applied to the operand (pre-multiplication), never by the raw operand
